@@ -96,6 +96,7 @@ pub fn def(tier: Tier) -> PropertyDef {
         )
         .rates(&[("payload_gt_60000", 0.05)])
         .boxed(),
+        crate::fuzzing::fuzz_sub("framing", "fuzz_framing", tier.pick(2_000, 20_000)),
     ];
     PropertyDef {
         id: "C01",
